@@ -50,6 +50,10 @@ M = {
  "c17-maxb-lost": ("actions/create-subscription.go", "\tif a.params.MaxBackoff > 0 {\n\t\tcreate = create.SetMaxBackoff(sqltypes.IntervalPtr(a.params.MaxBackoff))\n\t}\n", ""),
  "f11-revert": ("actions/prune-deleted-topics.go", "sql.IsNull(t.C(subscription.FieldDeletedAt)),", "sql.IsNull(t.C(subscription.FieldDeletedAt)), sql.False(),"),
  "f10-revert": ("actions/prune-deleted-topics.go", "\tif len(ids) != 0 {", "\tif len(ids) != 0 && false {"),
+ "c18-no-continue": ("faults/set.go", "it's <3%\n\t\t\t\tcontinue\n", "it's <3%\n"),
+ "c18-superset": ("faults/description.go", "\t\tif vv, ok := params[p]; !ok {\n\t\t\treturn false\n\t\t} else if vv != v {", "\t\tif vv, ok := params[p]; !ok {\n\t\t\tcontinue\n\t\t} else if vv != v {"),
+ "c18-pool-leak": ("grpc/faults.go", "\tfor k := range params {\n\t\tdelete(params, k)\n\t}\n", ""),
+ "c18-nonatomic": ("faults/set.go", "remaining := atomic.AddInt64(&d.Count, -1)", "remaining := atomic.LoadInt64(&d.Count) - 1\n\t\tatomic.StoreInt64(&d.Count, remaining)"),
 }
 def main():
     name, checks = sys.argv[1], sys.argv[2].split(",")
